@@ -86,6 +86,36 @@ class Fn:
         self._succ = None
         self._pred = None
 
+    def promoted_consts(self):
+        """index -> list of constant strings/values built in promoted[index]"""
+        out = {}
+        for i, pb in enumerate(self.raw.get('promoted', [])):
+            vals = []
+            for b in pb['blocks']:
+                for s in b['s']:
+                    k = (s.get('r', {}).get('o') or {}).get('k') if isinstance(s.get('r', {}).get('o'), dict) else None
+                    if k is not None:
+                        vals.append(k.get('s', k.get('v')))
+            out[i] = vals
+        return out
+
+    def operand_strings(self, org, o):
+        """string constants an operand may denote (directly, or through a reference to a promoted constant)"""
+        out = set()
+        k = op_const(o)
+        if k is not None and 's' in k:
+            out.add(k['s'])
+        pl = op_place(o)
+        if pl is not None:
+            for q in org.get(pl['l'], ()):
+                if q[0][0] == 'const' and isinstance(q[0][1], str):
+                    if 'promoted[' in q[0][1]:
+                        i = int(q[0][1].split('promoted[')[1].split(']')[0])
+                        out |= {v for v in self.promoted_consts().get(i, []) if isinstance(v, str)}
+                    else:
+                        out.add(q[0][1])
+        return out
+
     def loc(self, sp=None):
         if sp is None:
             return '%s:%d' % (self.file, self.line)
@@ -614,7 +644,7 @@ DERIVATION_WRAPPERS = [
     'std::result::Result::<T, E>::unwrap', 'std::result::Result::<T, E>::expect',
     'std::ops::Try::branch', 'std::ops::FromResidual::from_residual',
     'std::cell::RefCell::<T>::borrow', 'std::cell::RefCell::<T>::borrow_mut',
-    'std::clone::Clone::clone', 'std::convert::Into::into', 'std::convert::From::from',
+    'std::clone::Clone::clone', 'std::convert::Into::into', 'std::convert::From::from', 'std::string::String::as_str',
     'std::convert::AsRef::as_ref',
     'yarel::memory::Gc::<T>::as_root', 'yarel::memory::Root::<T>::as_gc',
     'yarel::memory::Gc::<T>::as_ptr', 'std::cell::RefCell::<T>::as_ptr',
